@@ -349,8 +349,8 @@ pub static C28: CheckDef = CheckDef {
     id: "C28",
     variants: &["fault-free", "faults"],
     run: run_c28,
-    quick_runs: 20_000,
-    thorough_runs: 1_000_000,
+    quick_runs: 300_000,
+    thorough_runs: 20_000_000,
     rule: "case = real DataLoader over a simulated loader, spawner and timer; cache NoCache / HashMapCache / LruCache(cap >= key universe), max_batch_size 1-4, delay 0/1/50us; 1-5 concurrent client tasks each running a drawn script of load_one / load_many (0-4 keys of 4, duplicates allowed, two key types) / feed / clear / clear_one / enable toggles; 'faults' adds failing loader calls, omitted keys, late timers and cancellation of a client at a drawn time. Schedule = caller progress x spawned-task order x timer firing x loader completion. Oracle over the recorded history (global event sequence numbers): every loader batch is duplicate-free and smaller than max_batch_size + largest single request; every returned (key,value) is attributable to a loader call for that key that had ended, or a feed that had been made, by the time the load returned (with NoCache: to a call inside the load's interval); a key is absent only if a loader call in the interval omitted it; an error is the error of a loader call inside the interval that contained the request's keys; at quiescence every non-cancelled load has returned. Non-trivial = >=2 loads overlapped in time; distinct = distinct event-order hashes.",
     real: &["async_graphql::dataloader::DataLoader (load_many / do_load / delayed fetch task / immediate load task / caches)", "scc HashMap", "futures-channel oneshot"],
     stub: &["Loader (simulated, gated, faulty)", "Spawn (simulator tasks)", "Timer (simulated clock, may fire late)", "client tasks"],
@@ -558,8 +558,8 @@ pub static C29: CheckDef = CheckDef {
     id: "C29",
     variants: &["nocache", "hashmap", "lru"],
     run: run_c29,
-    quick_runs: 20_000,
-    thorough_runs: 1_000_000,
+    quick_runs: 300_000,
+    thorough_runs: 20_000_000,
     rule: "case = one client running a drawn history of up to 40 operations (load_one, load_many with duplicates, feed, clear, clear_one, enable_all_cache, enable_cache::<K>, get_cached_values; two key types; any operation may come first on a fresh loader) against the real DataLoader with NoCache / HashMapCache / LruCache(1-3), max_batch_size 1-4; each operation is awaited to completion under the simulator (timer and spawned tasks still run through the seams); the loader may omit keys or fail. Oracle: executable reference model (map / exact LRU where get and put promote and iteration does not / nothing; global and per-type enable flags; values loaded while caching is disabled are not inserted; feeds insert regardless): every result, the key set of every loader call and get_cached_values are compared operation by operation; a panic is a violation. Non-trivial = the history contained a cache hit and (for LRU) an eviction, or an enable toggle; distinct = distinct event-order hashes.",
     real: &["async_graphql::dataloader::DataLoader and its cache storages (NoCacheImpl, HashMapCacheImpl, LruCacheImpl / lru crate)"],
     stub: &["Loader (simulated)", "Spawn, Timer (simulator)"],
